@@ -3,10 +3,14 @@ package main
 import (
 	"context"
 	"fmt"
+	"google.golang.org/grpc"
+	"google.golang.org/grpc/metadata"
+	"io"
 	"math"
 	"net/http"
 	"net/http/httptest"
 	"net/url"
+	"runtime"
 	"strings"
 	"time"
 
@@ -184,47 +188,104 @@ func runC09(o *hx.Out, r *hx.Rand, thorough bool) {
 	ts := httptest.NewServer(s)
 	defer ts.Close()
 	u, _ := url.Parse(ts.URL)
-	ch := &httpgrpc.Channel{Transport: &http.Transport{}, BaseURL: u}
+	var sentAt time.Time // when the request was handed to the transport
+	ch := &httpgrpc.Channel{Transport: stampRT{&http.Transport{}, &sentAt}, BaseURL: u}
+	s.RegisterService(hx.Desc("verif.Svc2"), &hx.Svc{Stream: func(kind string, ss grpc.ServerStream) error {
+		got.arrival = time.Now()
+		got.dl, got.has = ss.Context().Deadline()
+		return nil
+	}})
 	e2e := []time.Duration{0, 50 * time.Millisecond, 1500 * time.Millisecond, 90 * time.Second, 28 * time.Hour, 30 * time.Hour, 30 * 24 * time.Hour, 5 * 365 * 24 * time.Hour, 200 * 365 * 24 * time.Hour}
 	ne := 0
-	for _, d := range e2e {
-		ctx := context.Background()
-		var callerDL time.Time
-		if d > 0 {
-			var cancel context.CancelFunc
-			callerDL = time.Now().Add(d)
-			ctx, cancel = context.WithDeadline(ctx, callerDL)
-			defer cancel()
-		}
-		got = obs{}
-		send := time.Now()
-		err := ch.Invoke(ctx, "/verif.Svc/U", &hx.Msg{}, &hx.Msg{})
-		desc := map[string]interface{}{"side": "end-to-end", "caller_timeout": d.String(), "handler_has_deadline": got.has}
-		ne++
-		if err != nil {
-			o.Violate("end-to-end call with a deadline failed", desc, err.Error(), nil)
-			continue
-		}
-		if d == 0 {
-			if got.has {
-				o.Violate("the transport added a deadline the caller did not set", desc, got.dl.String(), nil)
+	// variants: plain; the caller's outgoing metadata already carries a grpc-timeout entry (a proxy that forwards
+	// the metadata it received); per-RPC credentials whose token fetch takes 60 ms; and the same on a stream
+	for _, variant := range []string{"plain", "metadata has grpc-timeout", "slow credentials", "stream", "stream, slow credentials"} {
+		for _, d := range e2e {
+			if variant != "plain" && (d == 0 || d > 30*time.Hour) {
+				continue
 			}
-			continue
-		}
-		if !got.has {
-			o.Violate("the caller's deadline did not reach the handler", desc, nil, nil)
-			continue
-		}
-		early := callerDL.Sub(got.dl)
-		late := got.dl.Sub(callerDL)
-		transit := got.arrival.Sub(send)
-		desc["handler_minus_caller_ns"] = int64(late)
-		if early > time.Millisecond+50*time.Microsecond {
-			o.Violate("handler deadline earlier than the caller's by more than the 1 ms granularity", desc, early.String(), "<= 1ms")
-		}
-		if late > transit+time.Millisecond+50*time.Microsecond {
-			o.Violate("handler deadline later than the caller's by more than transit + 1 ms", desc, late.String(), transit.String())
+			if strings.Contains(variant, "slow credentials") && d < time.Second {
+				continue // the fetch alone would exhaust the deadline
+			}
+			ctx := context.Background()
+			if variant == "metadata has grpc-timeout" {
+				ctx = metadata.NewOutgoingContext(ctx, metadata.Pairs("grpc-timeout", "7H", "other", "x"))
+			}
+			var opts []grpc.CallOption
+			if strings.Contains(variant, "slow credentials") {
+				opts = append(opts, grpc.PerRPCCredentials(slowCreds{60 * time.Millisecond}))
+			}
+			var callerDL time.Time
+			if d > 0 {
+				var cancel context.CancelFunc
+				callerDL = time.Now().Add(d)
+				ctx, cancel = context.WithDeadline(ctx, callerDL)
+				defer cancel()
+			}
+			got = obs{}
+			var err error
+			if strings.HasPrefix(variant, "stream") {
+				var cs grpc.ClientStream
+				cs, err = ch.NewStream(ctx, hx.StreamDescOf("BD"), "/verif.Svc2/BD", opts...)
+				if err == nil {
+					cs.CloseSend()
+					if e := cs.RecvMsg(&hx.Msg{}); e != io.EOF {
+						err = e
+					}
+					runtime.KeepAlive(cs)
+				}
+			} else {
+				err = ch.Invoke(ctx, "/verif.Svc/U", &hx.Msg{}, &hx.Msg{}, opts...)
+			}
+			send := sentAt
+			desc := map[string]interface{}{"side": "end-to-end", "variant": variant, "caller_timeout": d.String(), "handler_has_deadline": got.has}
+			ne++
+			if err != nil {
+				o.Violate("end-to-end call with a deadline failed", desc, err.Error(), nil)
+				continue
+			}
+			if d == 0 {
+				if got.has {
+					o.Violate("the transport added a deadline the caller did not set", desc, got.dl.String(), nil)
+				}
+				continue
+			}
+			if !got.has {
+				o.Violate("the caller's deadline did not reach the handler", desc, nil, nil)
+				continue
+			}
+			early := callerDL.Sub(got.dl)
+			late := got.dl.Sub(callerDL)
+			transit := got.arrival.Sub(send) // from the hand-over to the transport to the handler
+			desc["handler_minus_caller_ns"] = int64(late)
+			desc["transit_ns"] = int64(transit)
+			if early > time.Millisecond+50*time.Microsecond {
+				o.Violate("handler deadline earlier than the caller's by more than the 1 ms granularity", desc, early.String(), "<= 1ms")
+			}
+			if late > transit+time.Millisecond+20*time.Millisecond { // 20 ms for the scheduler between encoding the header and the hand-over
+				o.Violate("handler deadline later than the caller's by more than transit + 1 ms", desc, late.String(), transit.String())
+			}
 		}
 	}
 	o.Stats["end_to_end_calls"] = ne
 }
+
+// stampRT notes when a request is handed to the transport
+type stampRT struct {
+	inner http.RoundTripper
+	at    *time.Time
+}
+
+func (s stampRT) RoundTrip(r *http.Request) (*http.Response, error) {
+	*s.at = time.Now()
+	return s.inner.RoundTrip(r)
+}
+
+// slowCreds are per-RPC credentials whose token takes a while to fetch
+type slowCreds struct{ d time.Duration }
+
+func (c slowCreds) GetRequestMetadata(context.Context, ...string) (map[string]string, error) {
+	time.Sleep(c.d)
+	return map[string]string{"token": "t"}, nil
+}
+func (slowCreds) RequireTransportSecurity() bool { return false }
